@@ -147,6 +147,29 @@ class Summaries:
                                 changed = True
             if not changed:
                 break
+        # package-wide: attribute names that hold a set wherever the package assigns / declares them (objects travel between
+        # modules: `ctx.namelist` is declared in util/zip_context.py and read in every extractor), plus properties returning a set
+        votes = {}
+        for rel, m in mods.items():
+            for q, fnode in m.functions.items():
+                if isinstance(fnode, ast.Lambda):
+                    continue
+                unames, is_u = unordered_names(m, fnode, self)
+                known = {k: True for k in unames}
+                for n in own_nodes(fnode):
+                    if isinstance(n, ast.Assign):
+                        for t in n.targets:
+                            if isinstance(t, ast.Attribute):
+                                votes.setdefault(t.attr, []).append(bool(is_u(n.value, known)))
+                    elif isinstance(n, ast.AnnAssign) and isinstance(n.target, ast.Attribute):
+                        votes.setdefault(n.target.attr, []).append(set_annotation(n.annotation) or (n.value is not None and bool(is_u(n.value, known))))
+                if "." in q and "<locals>" not in q and any(dotted(d).split(".")[-1] in ("property", "cached_property") for d in fnode.decorator_list):
+                    votes.setdefault(fnode.name, []).append((rel, fnode.name) in self.set_fns)
+            for c in m.classes.values():
+                for st_ in c.body:
+                    if isinstance(st_, ast.AnnAssign) and isinstance(st_.target, ast.Name):
+                        votes.setdefault(st_.target.id, []).append(set_annotation(st_.annotation))
+        self.pkg_set_attrs = {a for a, v in votes.items() if v and all(v)}
 
     def call_returns_set(self, mod, call):
         f = call.func
@@ -176,7 +199,7 @@ def unordered_names(mod, fnode, summ=None):
             return True
         if summ is not None and isinstance(e, ast.Call) and summ.call_returns_set(mod, e):
             return True
-        if summ is not None and isinstance(e, ast.Attribute) and e.attr in summ.set_attrs.get(mod.rel, ()):
+        if summ is not None and isinstance(e, ast.Attribute) and (e.attr in summ.set_attrs.get(mod.rel, ()) or e.attr in getattr(summ, "pkg_set_attrs", ())):
             return True
         if isinstance(e, ast.Call) and isinstance(e.func, ast.Attribute) and e.func.attr == "fromkeys" and e.args and is_u(e.args[0], known):
             return True      # dict.fromkeys(<set>): a dict in set-iteration order
@@ -397,7 +420,7 @@ def order_sites(mod, q, fnode, summ=None, keyed_out=None):
                     add(n, "comprehension over <set>")
         elif isinstance(n, ast.For) and is_u(n.iter, known):
             collected = set()
-            cb = _commutative_body(n.body, fnode, n, collected)
+            cb = _commutative_body(n.body, fnode, n, collected, mod)
             if cb is True and collected:
                 # the loop only collects into local lists: fine when each of them is sorted before anything else looks at it
                 for lst in sorted(collected):
@@ -432,7 +455,36 @@ def order_sites(mod, q, fnode, summ=None, keyed_out=None):
 COMMUTATIVE_METHODS = {"add", "discard", "update", "setdefault", "debug", "info", "warning", "error", "exception", "log"}
 
 
-def _commutative_body(stmts, fnode=None, loop=None, collected=None):
+def _only_looked_up(mod, fnode, target):
+    """The mapping `target` (a local name, or an attribute like self._roots) is only used for lookups (d[k], d.get(k), k in d,
+    len(d), bool(d)) in its scope: the function for a local name, the whole module for an attribute."""
+    if isinstance(target, ast.Name):
+        scopes, match = [fnode], (lambda e: isinstance(e, ast.Name) and e.id == target.id)
+    else:
+        scopes, match = [mod.tree], (lambda e: isinstance(e, ast.Attribute) and e.attr == target.attr)
+    for scope in scopes:
+        par = _parents(scope)
+        for e in ast.walk(scope):
+            if not match(e) or not isinstance(getattr(e, "ctx", None), ast.Load):
+                continue
+            p = par.get(id(e))
+            if isinstance(p, ast.Subscript) and p.value is e:
+                continue
+            if isinstance(p, ast.Compare) and e in p.comparators:
+                continue
+            if isinstance(p, ast.Attribute) and p.attr in ("get", "setdefault", "pop", "__contains__", "update", "clear"):
+                continue
+            if isinstance(p, ast.Call) and isinstance(p.func, ast.Name) and p.func.id in ("len", "bool") and e in p.args:
+                continue
+            if isinstance(p, ast.keyword) and p.arg is None:
+                continue        # f(**d): keyword arguments are matched by name
+            if isinstance(p, (ast.If, ast.While, ast.UnaryOp, ast.BoolOp, ast.IfExp)) and not (isinstance(p, ast.IfExp) and e is not p.test):
+                continue
+            return False
+    return True
+
+
+def _commutative_body(stmts, fnode=None, loop=None, collected=None, mod=None):
     """True when executing the body for the elements in any order gives the same final state; otherwise a short reason.
     `collected` (a set) receives the names of local lists the body appends to: their order is the iteration order."""
     for s in stmts:
@@ -445,28 +497,42 @@ def _commutative_body(stmts, fnode=None, loop=None, collected=None):
             tg = s.targets[0] if isinstance(s, ast.Assign) and len(s.targets) == 1 else getattr(s, "target", None)
             if isinstance(tg, ast.Name):
                 inside = {id(x) for x in ast.walk(loop)}
-                if all(id(x) in inside for x in ast.walk(fnode) if isinstance(x, ast.Name) and x.id == tg.id and isinstance(x.ctx, ast.Load)):
+                # reads before the loop see an earlier value of a re-used name -- unless the loop itself sits in an outer loop
+                nested = any(isinstance(o_, (ast.For, ast.While, ast.AsyncFor)) and o_ is not loop and any(x is loop for x in ast.walk(o_))
+                             for o_ in ast.walk(fnode))
+                if all(id(x) in inside or (not nested and x.lineno < loop.lineno)
+                       for x in ast.walk(fnode) if isinstance(x, ast.Name) and x.id == tg.id and isinstance(x.ctx, ast.Load)):
                     continue
         if isinstance(s, ast.Expr) and isinstance(s.value, ast.Call) and isinstance(s.value.func, ast.Attribute) and s.value.func.attr in COMMUTATIVE_METHODS:
             continue       # set insertion / removal, dict.setdefault, log messages (PY-LOG: not part of any result)
         if isinstance(s, ast.Expr) and isinstance(s.value, ast.Constant):
             continue
         if isinstance(s, ast.If):
-            a_, b_ = _commutative_body(s.body, fnode, loop, collected), _commutative_body(s.orelse, fnode, loop, collected)
+            a_, b_ = _commutative_body(s.body, fnode, loop, collected, mod), _commutative_body(s.orelse, fnode, loop, collected, mod)
             if a_ is True and b_ is True:
                 continue
             return a_ if a_ is not True else b_
         if isinstance(s, (ast.Pass, ast.Continue)):
             continue
+        if isinstance(s, ast.Try):
+            parts = [s.body, s.orelse, s.finalbody] + [h.body for h in s.handlers]
+            res = [_commutative_body(b_, fnode, loop, collected, mod) for b_ in parts if b_]
+            bad_ = [r_ for r_ in res if r_ is not True]
+            if not bad_:
+                continue
+            return bad_[0]
         # counters and sums: x += <number>, total |= flags
         if isinstance(s, ast.AugAssign) and isinstance(s.op, (ast.Add, ast.BitOr, ast.BitAnd, ast.Mult)) and isinstance(s.target, ast.Name) and \
                 (isinstance(s.value, ast.Constant) and isinstance(s.value.value, (int, float)) or
                  (isinstance(s.value, ast.Call) and dotted(s.value.func) in ("len", "int", "float", "abs"))):
             continue
-        # d[key] = value into a dict keyed by something: building a mapping is order-independent as a mapping
+        # d[key] = value: building a mapping is order-independent as a mapping -- as long as nobody looks at the mapping's own
+        # (insertion) order: no iteration / items() / values() / keys() / list() of it, only lookups
         if isinstance(s, ast.Assign) and len(s.targets) == 1 and isinstance(s.targets[0], ast.Subscript) \
-                and isinstance(s.targets[0].value, ast.Name):
-            continue
+                and isinstance(s.targets[0].value, (ast.Name, ast.Attribute)):
+            if mod is None or _only_looked_up(mod, fnode, s.targets[0].value):
+                continue
+            return f"line {s.lineno}: {ast.unparse(s.targets[0].value)} is filled in <set> order and iterated elsewhere"
         return f"line {s.lineno}: {type(s).__name__}"
     return True
 
@@ -666,6 +732,11 @@ def policy(repo, tier):
     # ---- process-persistent state is a key-determined memo
     st, n_state = FL.state_obligations(mods)
     obls.extend(st)
+    sa, n_sa = FL.state_alias_obligations(mods, pkg, FR)
+    obls.extend(sa)
+    obls.append(ground_obligation("C06/package/state#functions-reading-mutable-module-state-scanned", n_sa >= 20,
+                                  f"{n_sa} functions read a mutable module-level container / instance: none modifies it through an alias, in place or via a helper"
+                                  if not sa else f"{n_sa} functions analysed, {len(sa)} site(s) reported separately", "package"))
     obls.append(ground_obligation("C06/package/state#persistent-state-writers-scanned", n_state >= 3,
                                   f"{n_state} writes of module-level state / decorator caches", "package"))
     # ---- nondeterministic primitives
@@ -697,6 +768,8 @@ def policy(repo, tier):
                 o["replay_hint"] = {"kind": "nondet", "file": rel, "function": q, "line": n.lineno, "source": c or n.func.id}
                 obls.append(volatile(o))
                 k += 1
+    from contracts import C06_xlsx
+    obls.extend(C06_xlsx.site_obligations(mods))
     obls.append(ground_obligation("C06/package/nondet#nondeterministic-sources-scanned", n_src >= 5,
                                   f"{n_src} calls of nondeterministic primitives (clock, id(), random, temporary names, ...) followed", "package"))
     # functions that carry an order / stream / state / nondet obligation of their own: effect / qualifier obligations, listed per family
@@ -868,8 +941,8 @@ def contracts(reg):
     for every payload and every cursor position it returns the base64 text of the WHOLE payload and leaves the cursor where it
     was.  Contract, value model (`PV` payload + ghost cursor) and executor are those of the C05 pack (contracts/C05.py), the
     obligations are C06's own (`C06/serialization.py::_bytesio_to_base64/returns`, `/ensures#stream-position-restored`)."""
-    from contracts import C05
-    return [c for c in C05.contracts(reg) if c.target.endswith("::_bytesio_to_base64") or c.assumed]
+    from contracts import C05, C06_xlsx
+    return [c for c in C05.contracts(reg) if c.target.endswith("::_bytesio_to_base64") or c.assumed] + C06_xlsx.contracts(reg)
 
 
 def _executor():
